@@ -33,4 +33,30 @@ example :
     ∧ (Rd.nextFrame { state := 5, checkUTF8 := true } { chunks := [[0xa1, 0x81, 1, 2, 3, 4, 0xfe]], fin := .eof } {} none).2.2.1.utf8on = true := by
   constructor <;> rfl
 
+/-- A control frame met OUTSIDE a fragmented message (the reader hands it to the caller like a message of its
+    own: ReadMessage returns it, ReadData answers it) is never put through the validator, whatever its opcode
+    bits and payload: control payloads are not text. -/
+theorem control_never_validated (r : Rd) (s s1 : Src) (cx : Ctx) (cb : Option Callback) (hdr : Header)
+    (hh : readHeaderUtil s = (.ok hdr, s1))
+    (hc : (if r.skipCheck then none else checkHeader hdr r.state) = none)
+    (hmax : ¬ (r.maxFrame > 0 ∧ hdr.len > r.maxFrame)) (hext : r.ext = false)
+    (hctl : opIsControl hdr.op = true) (hnf : r.fragmented = false) :
+    (r.nextFrame s cx cb).2.2.1.utf8on = false := by
+  have hne : (hdr.op == opText) = false := by
+    cases hb : hdr.op == opText
+    · rfl
+    · have h1 : hdr.op = opText := by simpa using hb
+      rw [h1] at hctl
+      exact absurd hctl (by decide)
+  have hfr : stIs r.state stFragmented = false := by simpa [Rd.fragmented] using hnf
+  unfold Rd.nextFrame
+  simp only [hh, hc, hmax, hext, if_false, Bool.false_eq_true]
+  simp [Rd.fragmented, hfr, hne]
+
+/-- a ping whose payload is not UTF-8, between messages, checking on: accepted, validator not installed -/
+example :
+    (Rd.nextFrame { state := 1, checkUTF8 := true } { chunks := [[0x89, 0x81, 0, 0, 0, 0, 0xff]], fin := .eof } {} none).2.1 = none
+    ∧ (Rd.nextFrame { state := 1, checkUTF8 := true } { chunks := [[0x89, 0x81, 0, 0, 0, 0, 0xff]], fin := .eof } {} none).2.2.1.utf8on = false := by
+  constructor <;> rfl
+
 end Ws.C07
